@@ -306,6 +306,40 @@ def stepped_case(rng):
     return ant, dict(ant, wires=ws), ops
 
 
+def thin_tip_case(rng, j):
+    """a straight thin wire (radius below 1e-4 wavelengths: closed-form self terms) — or, every fourth time, a thick one — described
+    as one object and as a long piece plus a one-segment tip at either end, the tip drawn from or towards the joint and listed
+    before or after the long piece (with a bent second wire in half of the cases)"""
+    f = 10 ** rng.uniform(0.8, 1.8)
+    lam = 299.8 / f
+    n = rng.randint(6, 12)
+    seg = lam / rng.uniform(18, 40)
+    r = lam * 10 ** rng.uniform(-5.5, -4.2) if j % 4 else seg / rng.uniform(15, 40)
+    d = rng.gauss(0, 1), rng.gauss(0, 1), rng.gauss(0, 1)
+    d = np.array(d) / np.linalg.norm(d)
+    p0 = np.array([rng.uniform(-1, 1) * lam for _ in range(3)])
+    p1 = p0 + d * seg * n
+    wires = [dict(nseg=n, p0=[float(x) for x in p0], p1=[float(x) for x in p1], r=r)]
+    if j % 2:
+        e = np.cross(d, [0.3, -0.5, 0.8]); e /= np.linalg.norm(e)
+        wires.append(dict(nseg=3, p0=[float(x) for x in p1], p1=[float(x) for x in p1 + (0.8 * e + 0.3 * d) * seg * 3], r=r))
+    ant = dict(f=f, ground=False, wires=wires, family='thin-tip', lam=lam, seg=seg)
+    k = 1 if (j // 2) % 2 else n - 1
+    mid = p0 + (p1 - p0) * (k / n)
+    a = dict(wires[0], nseg=k, p1=[float(x) for x in mid])
+    b = dict(wires[0], nseg=n - k, p0=[float(x) for x in mid])
+    tip = a if k == 1 else b
+    ops = ['split@%d/%d' % (k, n)]
+    if (j // 4) % 2:
+        tip['p0'], tip['p1'] = tip['p1'], tip['p0']
+        ops.append('tip-rev')
+    pieces = [a, b]
+    if (j // 8) % 2:
+        pieces = [b, a]
+        ops.append('swapped')
+    return ant, dict(ant, wires=pieces + [dict(w) for w in wires[1:]]), ops
+
+
 def nonuniform_case(rng):
     """a geo object whose segments are not all alike (a tapered wire, an arc, a helix) with plain wires joined to its ends;
     second description: the plain wires reversed and / or listed before the object.  A junction pulse takes its far half
@@ -383,6 +417,7 @@ def table_symmetric():
 
 def run(ck):
     ck.proof_side()
+    ck.cov['further_clauses'] = 'thin and thick straight wires as one object vs long piece + one-segment tip (either end, tip drawn either way, listed before or after)'
     rng = ck.rng
     ts = table_symmetric()
     ck.case(('table-symmetric',), True)
@@ -432,6 +467,24 @@ def run(ck):
                 dis.append(dict(ant=ant, ant2=ant2, src_seed=ss, why="Z' = T Z T^T off by %.3g, rhs' = T rhs off by %.3g" % tie))
         if bad:
             viol.append(dict(kind='redescription', ant=ant, ant2=ant2, src_seed=ss, mode='stepped', ops=ops, observed=bad))
+    for i in range(16 if ck.tier == 'quick' else 160):
+        ant, ant2, ops = thin_tip_case(rng, i)
+        ss = rng.randrange(10 ** 9)
+        try:
+            bad, tie = property_on_impl(ant, ant2, ss)
+        except Exception as e:
+            bad, tie = 'evaluation raised %s: %s' % (type(e).__name__, e), None
+        if bad is None and tie is None:
+            ck.count('skipped_cond_or_no_source')
+            continue
+        ck.case(('thin-tip', tuple(ops), i), True, sample=dict(family='thin-tip', ops=ops) if i < 2 else None)
+        ck.count('mode_thin_tip')
+        if tie:
+            worst = [max(worst[0], tie[0]), max(worst[1], tie[1])]
+            if tie[0] > 5e-6 or tie[1] > 1e-12:
+                dis.append(dict(ant=ant, ant2=ant2, src_seed=ss, why="Z' = T Z T^T off by %.3g, rhs' = T rhs off by %.3g" % tie))
+        if bad:
+            viol.append(dict(kind='redescription', ant=ant, ant2=ant2, src_seed=ss, mode='thin-tip', ops=ops, observed=bad))
     for i in range(30 if ck.tier == 'quick' else 400):
         ant, ant2, ops = nonuniform_case(rng)
         ss = rng.randrange(10 ** 9)
